@@ -197,7 +197,7 @@ class FortranGen:
                      0.7,                    # 11 accumulate loop
                      0.6,                    # 12 len()
                      0.8,                    # 13 elementwise_abs on a user type
-                     0.8,                    # 14 array -> array built-ins (abs, transpose, matmul)
+                     1.4,                    # 14 array -> array built-ins (abs, transpose, matmul)
                      2.0 if "<state>v" in self.types else 0]   # 15 second user type "v"
                 k = t.weighted(w, "opkind")
                 op = self.gen_op(k, D, depth)
